@@ -617,7 +617,7 @@ def _in_prefix(se, a, kw):
 @specfun("adjusted_uri")
 def _adjusted_uri(se, a, kw):
     rel = coerce(a[1], Ty("opt", (STR,)))
-    return V(STR, ops.UF("adjusted_uri", z3.StringSort(), z3.BoolSort(), z3.StringSort(), z3.StringSort())(a[0].t, rel.isnone, rel.val.t))
+    return V(STR, ops.UF("adjusted_uri", z3.StringSort(), z3.BoolSort(), z3.StringSort(), z3.StringSort())(unopt(a[0]).t, rel.isnone, rel.val.t))
 
 
 @specfun("looked_up")
@@ -784,3 +784,46 @@ def _memo_consistent(se, a, kw):
     key = box(vtuple([V(STR, u), vopt(STR, rn, V(STR, r))])).t
     return vbool(z3.ForAll([u, r, rn], z3.Implies(z3.Select(dom, key),
                                                   z3.And(z3.Length(u) > 0, z3.Select(val, key) == _adjusted_def(u, rn, r)))))
+
+
+@specfun("ns_depth")
+def _ns_depth(se, a, kw):
+    return V(INT, ops.UF("ns_depth", z3.IntSort(), z3.IntSort())(a[0].t))
+
+
+def _chain_end_fn():
+    return ops.UF("chain_end", z3.IntSort(), z3.IntSort())
+
+
+@specfun("chain_end")
+def _chain_end(se, a, kw):
+    """last namespace of the `inherits` chain starting at the argument, in the PRE-state heap
+    (defined by recursion; the defining equations are global axioms over the initial heap)"""
+    from .types import OBJ
+    from .state import HEAP_AXIOMS
+    ce = _chain_end_fn()
+    inh0 = z3.Const("H0_f:Namespace.inherits", z3.ArraySort(z3.IntSort(), z3.IntSort()))
+    n = z3.Int("n!ce")
+    # trigger on the select term only: instantiating on ce(n) would create ce(inh0[n]) and loop
+    GLOBAL_AXIOMS["chain_end"] = z3.ForAll([n], z3.If(inh0[n] == 0, ce(n) == n, ce(n) == ce(inh0[n])), patterns=[inh0[n]])
+    return V(OBJ("Namespace"), ce(a[0].t))
+
+
+@specfun("old_chain_end")
+def _old_chain_end(se, a, kw):
+    """chain_end(context['self']) evaluated on entry"""
+    st = se.old_st if se.old_st is not None else se.st
+    d = st.get_field(a[0], "_data")
+    dom, val = st.dict_get(d)
+    selfns = z3.Select(val, z3.StringVal("self"))
+    return _chain_end(se, [V(ANY, selfns)], kw)
+
+
+@specfun("finite_chain")
+def _finite_chain(se, a, kw):
+    """the `inherits` links of the pre-state are well-founded (depth strictly decreases toward the base)"""
+    inh0 = z3.Const("H0_f:Namespace.inherits", z3.ArraySort(z3.IntSort(), z3.IntSort()))
+    dp = ops.UF("ns_depth", z3.IntSort(), z3.IntSort())
+    n = z3.Int("n!fc")
+    return vbool(z3.ForAll([n], z3.Implies(z3.And(n > 0, inh0[n] != 0), z3.And(dp(inh0[n]) < dp(n), dp(n) > 0, inh0[n] > 0)),
+                           patterns=[inh0[n]]))
